@@ -185,7 +185,25 @@ def execute(case):
                         log(ev="get.begin", c=c, t=op["ts"][0], n=op["n"], mode=op["x"])
                         waiting.add(c)
                         try:
-                            if op["x"] == "giveup":
+                            if case.get("inject"):
+                                # the same lookups made through @inject-decorated functions called inside the component's method
+                                # (C19: equivalent to the explicit lookup in the context current at call time)
+                                fn = _injected(op["ts"][0], op["n"], op["x"], sync_ok and (case.get("seed", 0) + c) % 2)
+                                if op["x"] == "giveup":
+                                    with anyio.CancelScope() as gsc:
+                                        giveups[c] = gsc
+                                        v = await fn(c)
+                                    giveups.pop(c, None)
+                                    if gsc.cancelled_caught:
+                                        log(ev="get.end", c=c, t=op["ts"][0], n=op["n"], r="gaveup", v=[])
+                                        continue
+                                elif op["x"] == "nowait":
+                                    v = await state["outer"].get_resource(T, op["n"])
+                                else:
+                                    v = fn(c)
+                                    if hasattr(v, "__await__"):
+                                        v = await v
+                            elif op["x"] == "giveup":
                                 with anyio.CancelScope() as gsc:
                                     giveups[c] = gsc
                                     v = await get_resource(T, op["n"])
@@ -389,11 +407,34 @@ def execute(case):
     return {"id": case["id"], "prog": p, "events": events}
 
 
+_INJ = {}
+
+
+def _injected(tname, name, mode, sync):
+    """An @inject-decorated function whose one marker asks for (TY[tname], name); optional for mode "opt"; plain function when `sync`
+    (only used for "opt", where the explicit driver also uses the synchronous API)."""
+    key = (tname, name, mode == "opt", bool(sync and mode == "opt"))
+    if key not in _INJ:
+        from asphalt.core import inject, resource
+        T = TY[tname]
+        ann = (T | None) if key[2] else T
+        if key[3]:
+            def f(tag, *, dep=resource(name)):
+                return dep
+        else:
+            async def f(tag, *, dep=resource(name)):
+                return dep
+        f.__annotations__ = {"dep": ann}
+        _INJ[key] = inject(f)
+    return _INJ[key]
+
+
 def _exec_chunk(chunk):
     return [execute(c) for c in chunk]
 
 
-def family_check(prop: str, tier: str, seed: int, cfgs: list[tuple[str, str]], trace_module: str, need_hits: set, pick, rule: str, notes: list[str]) -> core.Report:
+def family_check(prop: str, tier: str, seed: int, cfgs: list[tuple[str, str]], trace_module: str, need_hits: set, pick, rule: str, notes: list[str],
+                 case_extra: dict | None = None) -> core.Report:
     """cfgs: [(label, cfg text)]; pick(pairs, tier, seed) selects the (program, schedule) pairs to execute."""
     rep = core.Report(prop, tier, seed)
     pairs = []
@@ -412,6 +453,8 @@ def family_check(prop: str, tier: str, seed: int, cfgs: list[tuple[str, str]], t
                 cases.append({"id": f"{i}-{be}-b", "prog": p["prog"], "hist": p["hist"], "fin": p["fin"], "backend": be, "seed": seed + i + 7, "burst": True})
         if tier == "thorough":
             cases.append({"id": f"{i}-asyncio-s", "prog": p["prog"], "hist": p["hist"], "fin": p["fin"], "backend": "asyncio", "seed": seed + i, "burst": True, "shuffle": True})
+    for c in cases:
+        c.update(case_extra or {})
     chunks = [cases[i:i + 200] for i in range(0, len(cases), 200)]
     traces = [t for ch in core.pmap(_exec_chunk, chunks, chunks=1) for t in ch]
     verdicts, d, g = core.validate_traces(trace_module, traces, chunk=2500)
